@@ -121,6 +121,17 @@ func (g *genB) named() string {
 }
 
 func (g *genB) sig() string {
+	if g.tp.Int(5) == 0 {
+		// two earlier parameters named exactly like the packages a later
+		// parameter's type brings in (the names are substituted together
+		// with the import names when the file is finished)
+		t1 := bTypes[g.tp.Int(len(bTypes))]
+		t2 := bTypes[g.tp.Int(len(bTypes))]
+		if bPkgName[t1.alias] != bPkgName[t2.alias] && t1.alias != t2.alias {
+			g.used[t1.alias], g.used[t2.alias] = t1, t2
+			return fmt.Sprintf("(@%s@ string, @%s@ string, fn func(*@%s@.%s, *@%s@.%s) error) error", t1.alias, t2.alias, t1.alias, t1.typ, t2.alias, t2.typ)
+		}
+	}
 	np := 1 + g.tp.Int(5)
 	mode := g.tp.Int(3)
 	seen := map[string]bool{}
